@@ -1,5 +1,7 @@
 mod iter;
 
+use std::io;
+
 use noodles_core::Position;
 use noodles_sam as sam;
 
@@ -31,6 +33,75 @@ impl<'r, 'c: 'r> Sequence<'r, 'c> {
             read_length,
         }
     }
+}
+
+/// Validates that the read bases can be resolved from the features.
+///
+/// The sequence iterator is infallible, so this is checked when the record is read: features
+/// that consume read bases are ordered and do not overlap, the features do not consume more bases
+/// than the read length, and all of the bases copied from the reference sequence exist.
+pub(super) fn validate(
+    reference_sequence: Option<&[u8]>,
+    features: &[Feature<'_>],
+    alignment_start: Position,
+    read_length: usize,
+) -> io::Result<()> {
+    fn invalid_data(message: &'static str) -> io::Error {
+        io::Error::new(io::ErrorKind::InvalidData, message)
+    }
+
+    // Validates that the reference sequence has (0-based) [.., end).
+    let validate_reference_end = |end: usize| match reference_sequence {
+        Some(sequence) if end <= sequence.len() => Ok(()),
+        Some(_) => Err(invalid_data("read out of range of reference sequence")),
+        None => Err(invalid_data("missing reference sequence")),
+    };
+
+    // The number of consumed bases.
+    let mut reference_position = usize::from(alignment_start) - 1;
+    let mut read_position = 0;
+
+    for feature in features {
+        let (reference_position_delta, read_position_delta) = match feature {
+            Feature::Bases { bases, .. } => (bases.len(), bases.len()),
+            Feature::ReadBase { .. } | Feature::Substitution { .. } => (1, 1),
+            Feature::Insertion { bases, .. } | Feature::SoftClip { bases, .. } => (0, bases.len()),
+            Feature::Deletion { len, .. } | Feature::ReferenceSkip { len, .. } => (*len, 0),
+            Feature::InsertBase { .. } => (0, 1),
+            Feature::Padding { .. } | Feature::HardClip { .. } => (0, 0),
+            Feature::Scores { .. } | Feature::QualityScore { .. } => continue,
+        };
+
+        // The bases up to the feature are copied from the reference sequence.
+        let match_len = (usize::from(feature.position()) - 1)
+            .checked_sub(read_position)
+            .ok_or_else(|| invalid_data("invalid feature position"))?;
+
+        reference_position = reference_position.saturating_add(match_len);
+        read_position += match_len;
+
+        // A substitution also reads the reference base at the feature.
+        let is_substitution = matches!(feature, Feature::Substitution { .. });
+
+        if reference_sequence.is_some() || match_len > 0 || is_substitution {
+            let end = reference_position.saturating_add(usize::from(is_substitution));
+            validate_reference_end(end)?;
+        }
+
+        reference_position = reference_position.saturating_add(reference_position_delta);
+        read_position = read_position.saturating_add(read_position_delta);
+    }
+
+    // The remaining bases are copied from the reference sequence.
+    let match_len = read_length
+        .checked_sub(read_position)
+        .ok_or_else(|| invalid_data("features exceed read length"))?;
+
+    if match_len > 0 {
+        validate_reference_end(reference_position.saturating_add(match_len))?;
+    }
+
+    Ok(())
 }
 
 impl sam::alignment::record::Sequence for Sequence<'_, '_> {
